@@ -480,6 +480,15 @@ def group_datetime(ctx, stats):
     for _ in range(ctx.pick(2500, 40000)):
         a = rand_dt(rng)
         b = rand_dt(rng, near=a)
+        if rng.random() < 0.12:
+            # the same instant up to a few nanoseconds / microseconds (inside one millisecond, one microsecond), possibly written with another offset
+            ns = min(max(a[4] + rng.choice([1, -1, 2, 999, -999, 1000, 400000, -400000, 999999, 1000000, -1000000, rng.randint(-999999, 999999)]), 0), 999999999)
+            b = (a[0], a[1], a[2], a[3], ns, a[5])
+            if isinstance(a[5], int) and rng.random() < 0.5:
+                k = rng.choice([-2, -1, 1, 2])
+                if 0 <= a[1] + k <= 23 and abs(a[5] + 3600 * k) <= 50400:
+                    b = (a[0], a[1] + k, a[2], a[3], ns, a[5] + 3600 * k)
+            stats['datetime_same_ms'] = stats.get('datetime_same_ms', 0) + 1
         if (a[5] is None) != (b[5] is None):     # a local and a zoned value: the machine's zone would enter; both local or both zoned only
             b = b[:5] + (a[5],)
             if isinstance(a[5], str) and a[5] != 'Z':
